@@ -171,7 +171,8 @@ class kLeastAbsErrorsCycles(walkmodel.AbstractWalkModelDiGraph):
             # Select edges where the flow_attr value is >= trusted_edges_for_safety_percentile (using self.G)
             flow_values = [self.G.edges[edge][flow_attr] for edge in self.G.edges() if flow_attr in self.G.edges[edge] and edge not in self.edges_to_ignore]
             percentile = np.percentile(flow_values, trusted_edges_for_safety_percentile) if flow_values else 0
-            self.trusted_edges_for_safety = set(edge for edge in self.G.edges() if flow_attr in self.G.edges[edge] and self.G.edges[edge][flow_attr] >= percentile)
+            # As without a percentile, an edge with flow 0 is never trusted: it need not be in any walk
+            self.trusted_edges_for_safety = set(edge for edge in self.G.edges() if flow_attr in self.G.edges[edge] and self.G.edges[edge][flow_attr] >= percentile and self.G.edges[edge][flow_attr] != 0)
             utils.logger.info(f"{__name__}: trusted_edges_for_safety set using using percentile {trusted_edges_for_safety_percentile} = {percentile} to {self.trusted_edges_for_safety}")
 
         self.edge_error_scaling = error_scaling_internal
